@@ -629,16 +629,20 @@ class VmdkSplitStream(Suite):
                          "  | _, _ => (Err, [], []) end.\n")
 
     def generate(self, rng, tier):
-        n = 30 if tier == "thorough" else 5
+        n = 30 if tier == "thorough" else 6
         out, tries = [], 0
-        while len(out) < n and tries < 4000:
+        while len(out) < n and tries < 20000:
             tries += 1
             c = self.c10.gen_multi(rng, "quick")
             total = sum(e["sectors"] for e in c["extents"])
-            if c["mode"] != "descriptor" or len(c["extents"]) < 2 or total * 512 > 2 * (1 << 20):
+            if c["mode"] != "descriptor" or total * 512 > 2 * (1 << 20):
                 continue
-            if len(out) % 2 == 0 and not c.get("parent"):
-                continue                                     # every other case is a split snapshot over a parent
+            single_flat = len(c["extents"]) == 1 and c["extents"][0]["type"] == "FLAT" and (c["extents"][0].get("start") or 0) > 0
+            if len(out) % 3 == 2:
+                if not single_flat:
+                    continue                                 # every third case: ONE flat extent that starts inside its file
+            elif len(c["extents"]) < 2 or (len(out) % 3 == 0 and not c.get("parent")):
+                continue                                     # every third case is a split snapshot over a parent
             c.pop("reqs", None)
             size = total * 512
             out.append({"img": c, "size": size, "bufsize": self.bufsize,
@@ -705,3 +709,8 @@ for _b in (512, 4096, 8192, 65536, 2097152):
     SUITES[f"readers_{_b}"] = ReaderStreamSuite(_b)
 for _b in (512, 1536, 8192):
     SUITES[f"vhdxchain_{_b}"] = VhdxChainStream(_b)
+
+# the active disk and the view of an internal snapshot (QCow2Snapshot.open()) read in interleaved histories: each is an
+# immutable array of its own (the suite of C07, judged here for the stream property)
+from harness.props import c07 as _c07  # noqa: E402
+SUITES["qcow2_snapshot"] = _c07.Qcow2Snapshots()
